@@ -99,6 +99,40 @@ pub fn run(v: &Value) -> Value {
                         break;
                     }
                 }
+            } else if let Some(plan) = step.get("plan") {
+                // run a hand-written physical plan (JSON tree, see plan.rs) through executor::build
+                let Some(dbr) = db.as_ref() else {
+                    outs.push(json!({"err": "database is closed"}));
+                    continue;
+                };
+                let parsed = match crate::plan::parse(plan) {
+                    Ok(p) => p,
+                    Err(e) => {
+                        outs.push(json!({"parse": e}));
+                        continue;
+                    }
+                };
+                let fut = std::panic::AssertUnwindSafe(dbr.verif_run_plan(&parsed));
+                outs.push(match futures::FutureExt::catch_unwind(fut).await {
+                    Ok(Ok(chunks)) => {
+                        let c = risinglight::array::Chunk::new(chunks);
+                        json!({"ok": chunks_to_json(std::slice::from_ref(&c))})
+                    }
+                    Ok(Err(e)) => json!({"err": errstr(e)}),
+                    Err(p) => json!({"panic": panic_msg(p)}),
+                });
+            } else if let Some(q) = step["explain"].as_str() {
+                let Some(dbr) = db.as_ref() else {
+                    outs.push(json!({"err": "database is closed"}));
+                    continue;
+                };
+                let opt = step["optimize"].as_bool().unwrap_or(true);
+                let fut = std::panic::AssertUnwindSafe(dbr.verif_plan(q, opt));
+                outs.push(match futures::FutureExt::catch_unwind(fut).await {
+                    Ok(Ok(p)) => json!({"plan": p.to_string()}),
+                    Ok(Err(e)) => json!({"err": errstr(e)}),
+                    Err(p) => json!({"panic": panic_msg(p)}),
+                });
             } else if step["shutdown"].as_bool() == Some(true) {
                 if let Some(d) = db.take() {
                     let r = d.shutdown().await;
